@@ -300,6 +300,42 @@ def run_history(case, sizes):
     return out
 
 
+def run_scale(sc):
+    """Scale case (thorough tier; no Coq): n distinct id-like values in one column, value i occurring once (i even) or three
+    times (i odd), seeded shuffle, cut into equal batches, through the real compute_value_counts; compared here with an exact
+    recount by collections.Counter: the report must be exactly the values whose total is <= thr."""
+    import random as _random
+    from collections import Counter as _Counter
+    n, nb, thr = int(sc["n_distinct"]), int(sc["nbatches"]), int(sc["thr"])
+    vals = []
+    for i in range(n):
+        vals += ["u%d" % i] * (1 if i % 2 == 0 else 3)
+    if sc.get("layout") == "frequent-first":
+        # every frequent value is retired before the first rare value arrives
+        fr = [v for i in range(n) if i % 2 for v in ["u%d" % i] * 3]
+        ra = ["u%d" % i for i in range(n) if i % 2 == 0]
+        _random.Random(sc["seed"]).shuffle(fr)
+        _random.Random(sc["seed"]).shuffle(ra)
+        vals = fr + ra
+    else:
+        _random.Random(sc["seed"]).shuffle(vals)
+    reset_globals()
+    args = types.SimpleNamespace(rare_value_count_upper_bound=thr)
+    size = (len(vals) + nb - 1) // nb
+    for b in range(nb):
+        chunk = vals[b * size:(b + 1) * size]
+        if chunk:
+            cr.compute_value_counts(pd.DataFrame([[v] for v in chunk], columns=["id"]), args)
+    rep_ = {k: int(v) for k, v in cr.GLOBAL_RARE_VALUE_STORAGE.items()}
+    exact = {("id", v): c for v, c in _Counter(vals).items() if c <= thr}
+    missing = sorted(k[1] for k in exact if k not in rep_)
+    spurious = sorted(str(k[1]) for k in rep_ if k not in exact)
+    wrong = sorted(k[1] for k in exact if k in rep_ and rep_[k] != exact[k])
+    reset_globals()
+    return {"rows": len(vals), "report": len(rep_), "exact": len(exact), "missing": missing[:10], "n_missing": len(missing),
+            "spurious": spurious[:10], "n_spurious": len(spurious), "wrong_count": wrong[:10], "n_wrong": len(wrong)}
+
+
 results = []
 if True:
     for case in payload["cases"]:
@@ -320,6 +356,12 @@ if True:
                 o = {"ok": False, "error": "%s: %s" % (type(e).__name__, e), "trace": traceback.format_exc()[-1500:]}
             hs.append(o)
         results.append({"hashes": hashes, "hash_error": herr, "histories": hs})
+scale_results = []
+for sc in payload.get("scale", []):
+    try:
+        scale_results.append(dict(run_scale(sc), ok=True))
+    except Exception as e:
+        scale_results.append({"ok": False, "error": "%s: %s" % (type(e).__name__, e)})
 reset_globals()
 shutil.rmtree(OUT, ignore_errors=True)
-print("@@RESULT " + json.dumps({"extract_error": EXTRACT_ERROR, "results": results}))
+print("@@RESULT " + json.dumps({"extract_error": EXTRACT_ERROR, "results": results, "scale": scale_results}))
